@@ -59,7 +59,7 @@ func genStores(w *world, t *trace.W, r *rng.R, maxOps int, big *int) {
 	w.do(t, "reset")
 	backend := pickBackend(r)
 	w.do(t, "open "+backend)
-	n := []int{0, 1, 2, 50, 99, 100, 101, 150, 199, 200, 201, 250, 300, 301}[r.Intn(14)]
+	n := []int{0, 1, 2, 50, 51, 60, 80, 99, 100, 101, 150, 199, 200, 201, 250, 300, 301}[r.Intn(17)]
 	if *big > 0 && backend != "etcd" && r.Bool(1, 6) {
 		n = []int{9999, 10000, 10001}[r.Intn(3)]
 		*big--
@@ -85,6 +85,19 @@ func genStores(w *world, t *trace.W, r *rng.R, maxOps int, big *int) {
 	}
 	if n > 0 {
 		w.do(t, fmt.Sprintf("stores %d %d %d", n, start, step))
+	}
+	if n > 0 && n <= 400 && r.Bool(2, 5) {
+		// many stores of one page carry explicitly saved weights (two weight keys per store); now and then
+		// also ids that have weights but no store
+		m := n
+		if r.Bool(1, 2) {
+			m = r.Range(n/2+1, n)
+		}
+		w.do(t, fmt.Sprintf("weights %d %d %d", m, start, step))
+		if step > 1 && r.Bool(1, 3) {
+			w.do(t, fmt.Sprintf("weights %d %d %d", r.Range(1, 60), start+1, step))
+		}
+		w.do(t, "loadstores")
 	}
 	if r.Bool(1, 25) {
 		w.do(t, fmt.Sprintf("store %d %d", uint64(math.MaxUint64), r.Intn(9))) // known finding F7a
@@ -269,13 +282,129 @@ func genRegionsPrune(w *world, t *trace.W, r *rng.R, maxOps int, bg *int) {
 	w.do(t, "loadregions plain")
 }
 
+// genOnce: LoadRegionsOnce (pruning callback on a fresh cache every time) on one Storage object: loads that fail
+// part-way because of an unreadable record (or failing LoadRange calls on the default backend), the record is
+// rewritten or deleted, the load is retried; repeated calls after a success; close/stop in between.
+func genOnce(w *world, t *trace.W, r *rng.R, maxOps int) {
+	w.do(t, "reset")
+	backend := []string{"rs", "rs", "rs", "mem", "etcd"}[r.Intn(5)]
+	w.do(t, "open "+backend)
+	rs := backend == "rs"
+	n := []int{0, 3, 40, 150, 300}[r.Intn(5)]
+	start, step := uint64(r.Range(1, 50)), uint64(r.Range(1, 4))
+	width := uint64(r.Range(2, 9))
+	if n > 0 {
+		w.do(t, fmt.Sprintf("regions %d %d %d %d", n, start, step, width))
+	}
+	anyID := func() uint64 {
+		if n == 0 {
+			return uint64(r.Range(1, 30))
+		}
+		return start + uint64(r.Intn(n))*step
+	}
+	// leftovers: a region swallowing some predecessors, a stale one
+	for k := r.Intn(3); k > 0 && n > 6; k-- {
+		i := r.Range(4, n-1)
+		w.do(t, fmt.Sprintf("region %d:%d:%d:1:2", start+uint64(i)*step, uint64(i-2)*width, uint64(i+1)*width))
+	}
+	w.do(t, "flush")
+	idx := func(id uint64) uint64 {
+		if id >= start {
+			return (id - start) / step
+		}
+		return id
+	}
+	var damaged []uint64
+	ops := r.Range(3, maxOps/2+3)
+	for k := 0; k < ops; k++ {
+		switch r.Pick(22, 30, 14, 8, 8, 8, 10) {
+		case 0:
+			id := anyID()
+			w.do(t, fmt.Sprintf("corrupt %d", id))
+			damaged = append(damaged, id)
+		case 1:
+			if !rs && r.Bool(1, 3) {
+				w.do(t, "loadonce "+pattern(r, r.Intn(8), r.Intn(3)))
+			} else {
+				w.do(t, "loadonce")
+			}
+		case 2: // repair: the record is written again (next heartbeat / sync of that region) or deleted
+			if len(damaged) == 0 {
+				continue
+			}
+			id := damaged[len(damaged)-1]
+			damaged = damaged[:len(damaged)-1]
+			if r.Bool(3, 4) {
+				i := idx(id)
+				w.do(t, fmt.Sprintf("region %d:%d:%d:1:%d", id, i*width, (i+1)*width, r.Range(1, 3)))
+			} else {
+				w.do(t, fmt.Sprintf("delregion %d", id))
+			}
+			w.do(t, "flush")
+		case 3:
+			w.do(t, "close")
+		case 4:
+			if rs {
+				w.do(t, "crash")
+				w.do(t, "loadregions plain")
+			}
+		case 5:
+			w.do(t, "loadregions plain")
+		case 6:
+			i := uint64(r.Intn(n + 5))
+			w.do(t, fmt.Sprintf("region %d:%d:%d:1:%d", start+i*step, i*width, (i+1)*width, r.Range(1, 3)))
+			w.do(t, "flush")
+		}
+	}
+	for _, id := range damaged {
+		i := idx(id)
+		w.do(t, fmt.Sprintf("region %d:%d:%d:1:3", id, i*width, (i+1)*width))
+	}
+	w.do(t, "flush")
+	w.do(t, "loadonce")
+	w.do(t, "loadonce")
+	w.do(t, "loadregions plain")
+}
+
+// genRace: the region storage on a leveldb whose journal writes can be parked: a delete of a region whose save is
+// still pending is parked inside leveldb while a flush is started.
+func genRace(w *world, t *trace.W, r *rng.R, maxOps int) {
+	w.do(t, "reset")
+	w.do(t, "open rsg")
+	if r.Bool(1, 3) {
+		w.do(t, fmt.Sprintf("regions %d 1000 1 3", []int{97, 98, 99}[r.Intn(3)]))
+	}
+	for k := r.Range(2, 6); k > 0; k-- {
+		id := r.Range(1, 9)
+		switch r.Intn(4) {
+		case 0:
+			w.do(t, fmt.Sprintf("region %d:%d:%d:1:%d", id, id*10, id*10+10, r.Range(1, 3)))
+			w.do(t, "flush")
+		case 1:
+			w.do(t, fmt.Sprintf("region %d:%d:%d:1:%d", r.Range(1, 9), id*10, id*10+10, r.Range(1, 3)))
+		}
+		w.do(t, fmt.Sprintf("region %d:%d:%d:1:%d", id, id*10, id*10+10, r.Range(1, 3)))
+		w.do(t, fmt.Sprintf("race %d", id))
+		if r.Bool(1, 2) {
+			w.do(t, fmt.Sprintf("loadregion %d", id))
+		}
+		w.do(t, "loadregions plain")
+	}
+	w.do(t, "close")
+	w.do(t, "loadregions plain")
+}
+
 func gen(w *world, t *trace.W, r *rng.R, maxOps int, big, bg *int) {
-	switch r.Pick(30, 25, 45) {
+	switch r.Pick(28, 22, 32, 12, 6) {
 	case 0:
 		genStores(w, t, r, maxOps, big)
 	case 1:
 		genRegionsPaging(w, t, r, maxOps, big)
-	default:
+	case 2:
 		genRegionsPrune(w, t, r, maxOps, bg)
+	case 3:
+		genOnce(w, t, r, maxOps)
+	default:
+		genRace(w, t, r, maxOps)
 	}
 }
